@@ -44,6 +44,9 @@ CLAIMED = {
  "C12": ("One inductive step of the real DispatchPayload / UpdateStats / BuildDenomDispatchedAmounts / state accessors on the IndexedMap summary (with the real index closures): from ARBITRARY pre-existing statistics (entries on the transfer's own keys and on keys differing in source, destination protocol, destination counterparty or denom; any totals and counts), one transfer of any amount over each route, with no action / a symbolic bps fee / a denomination-changing action, the bridge accepting or refusing: on success incoming += received and outgoing += forwarded on exactly the right entries, count += 1, every other entry unchanged, incoming - outgoing = fee; on refusal the statistics are byte-for-byte unchanged.",
          "Bounds: 1 / 2 pre-existing amount entries and count entries, destination domains concrete (7, 9), amounts < 10^60, totals < 10^70, counts < 2^64-1 (the swallowed statistics-overflow paths are outside the claim). 'Non-orbiter traffic leaves them unchanged' is asserted in C07's harness.",
          "DESIGN.md §3 C12"),
+ "C14": ("The no-panic obligation on every path of the receive path: every instruction that can panic (nil dereference, index / slice bounds, slice-to-array conversion, division by zero, failed type assertion, nil map write, explicit panic) and every documented panic of a summarised library call (math.Int overflow / nil receiver, sdk.NewCoin / NewCoins on invalid input) yields a solver query 'path condition AND panic condition'; a satisfiable one is replayed natively and reported. Driven by (shapes) arbitrary decoded payload shapes — every pointer position nil or not, identifiers any int32, byte fields of any length, integers and coins of any value — through Payload.Validate, the transfer hook, payload processing and the dispatcher; (packet) arbitrary envelope identifiers (ports, channels as arbitrary strings, non-ICS-20 bytes, blank parties) and arbitrary ICS-20 fields (pathological denominations from '/'-free segments, amounts <= 0, non-numbers, 2^256, memos with extra keys / null payload / broken JSON) through the real OnRecvPacket.",
+         "Bounds: 0..1 / 0..2 pre-actions each with 0..1 / 0..2 fee entries, Hyperlane byte fields 0..33 bytes, denominations of 1..3 / 1..4 segments of 0..1 / 0..2 arbitrary bytes, destination channel strings <= 10 / 12 bytes; action shapes and forwarding shapes are varied separately (not the full product). Shapes are built through the exported API, not through JSON: panics inside the JSON / protobuf codecs and bech32 are outside the claim (e.g. \"fees_info\":[null] panics inside jsonpb before orbiter code runs). nil math.Int is excluded (the Any round trip never yields one).",
+         "DESIGN.md §3 C14"),
  "C17": ("(Validate => Init) symbolic genesis per component — paused protocol / action ids any int32, cross-chain ids with any protocol and arbitrary counterparty bytes (nil entries allowed), dispatched amount / count entries with arbitrary ids, denoms, amounts (nil ids allowed), nil component sections — and the real GenesisState.Validate followed by the real Keeper.InitGenesis on the collections summary (incl. the key codec's refusal of 0x00): Validate()==nil implies InitGenesis does not panic and re-export has every entry. (Round trip) a history of admin messages, parameter updates and transfers from the empty state; Export validates, initialises a second fresh module, re-exports to the same genesis (as multisets), and both modules treat a further transfer identically (same enforcement, same statistics afterwards).",
          "Bounds: lists of 0..2 / 0..3 ids, 0..1 / 0..2 statistics entries, counterparty strings <= 1-2 / 2-3 bytes, denoms <= 3 / 4 bytes, histories of 2 / 3 operations. JSON (un)marshalling of the genesis document and module.go glue are outside the claim; list order is the store's iteration order (library), compared as multisets.",
          "DESIGN.md §3 C17"),
